@@ -150,10 +150,20 @@ def oracle(ctx):
         vec, axis, angle, kinds, cols = make_case(ctx.rng)
         ctx.count("eval_oracle")
         case = {"kinds": kinds, "vector": vec.tolist(), "axis": np.asarray(axis).tolist(), "angle": np.asarray(angle).tolist()}
+        before = [np.array(x, copy=True) for x in (vec, axis, angle)]
         try:
             out = geoloc.qrotate(vec, axis, angle)
+            out_again = geoloc.qrotate(vec, axis, angle)     # the same argument objects, a second time
         except Exception as e:  # noqa
             ctx.violation("raises", case, type(e).__name__ + ": " + str(e)[:100], "rotated vectors", site="geoloc.qrotate")
+            continue
+        # the rotation is a function of its arguments' values: it leaves them alone and repeats itself
+        if not all(np.array_equal(np.asarray(x), b) for x, b in zip((vec, axis, angle), before)):
+            ctx.violation("argument_modified", case, [np.asarray(x).tolist() for x in (vec, axis, angle)],
+                          "arguments unchanged by the call", site="geoloc.qrotate")
+            continue
+        if out_again.shape != out.shape or not np.array_equal(out_again, out):
+            ctx.violation("repeat_differs", case, out_again.tolist(), out.tolist(), site="geoloc.qrotate")
             continue
         if out.shape != vec.shape:
             ctx.violation("shape", case, list(out.shape), list(vec.shape), site="geoloc.qrotate")
@@ -205,9 +215,59 @@ def match_known(entry, v):
 
 
 def replay(ctx, case):
+    """Re-evaluate the recorded rotation (Rodrigues by minus the angle per column, shape, arguments untouched, repeatable) or
+    the recorded point of the geodetic helpers."""
     from pyorbital import geoloc
     inp = case.get("input", case)
-    if "vector" in inp:
-        out = geoloc.qrotate(np.array(inp["vector"]), np.array(inp["axis"]), np.array(inp["angle"]) if isinstance(inp["angle"], list) else inp["angle"])
-        print(out)
-    return 0
+    if "point" in inp:
+        p = np.array(inp["point"], dtype=float)
+        sp = geoloc.subpoint(p)
+        a, b = geoloc.A, geoloc.B
+        q = float(sp[0] ** 2 / a ** 2 + sp[1] ** 2 / a ** 2 + sp[2] ** 2 / b ** 2)
+        n = np.array([sp[0] / a ** 2, sp[1] / a ** 2, sp[2] / b ** 2])
+        n = n / np.linalg.norm(n)
+        d = p - sp
+        off = float(np.linalg.norm(d - (d @ n) * n))
+        print("subpoint", list(sp), "ellipsoid eq", q, "distance from the normal km", off)
+        return 1 if (abs(q - 1) > 1e-12 or (off > 1e-3 and np.linalg.norm(p) >= min(a, b) * 0.999)) else 0
+    if "vector" not in inp:
+        if "v" in inp and "a" in inp and "b" in inp:
+            v, k = np.array(inp["v"], dtype=float), np.array(inp["axis"], dtype=float)
+            r1 = geoloc.qrotate(geoloc.qrotate(v, k, inp["a"]), k, inp["b"])
+            r2 = geoloc.qrotate(v, k, inp["a"] + inp["b"])
+            return 1 if not np.all(np.abs(r1 - r2) <= 1e-11 * np.linalg.norm(v)) else 0
+        if "v" in inp and "angle" in inp:
+            v, k = np.array(inp["v"], dtype=float), np.array(inp["axis"], dtype=float)
+            return 1 if not np.all(np.abs(geoloc.qrotate(v, k, inp["angle"]) - v) <= 1e-11 * np.linalg.norm(v)) else 0
+        if "axis" in inp and "angle" in inp:
+            k = np.array(inp["axis"], dtype=float)
+            return 1 if not np.all(np.abs(geoloc.qrotate(k, k, inp["angle"]) - k) <= 1e-11 * np.linalg.norm(k)) else 0
+        print(inp)
+        return 0
+    vec = np.array(inp["vector"], dtype=float)
+    axis = np.array(inp["axis"], dtype=float)
+    angle = np.array(inp["angle"], dtype=float) if isinstance(inp["angle"], list) else float(inp["angle"])
+    before = [np.array(x, copy=True) for x in (vec, axis, angle)]
+    try:
+        out = geoloc.qrotate(vec, axis, angle)
+        again = geoloc.qrotate(vec, axis, angle)
+    except Exception as e:  # noqa
+        print("raises", e)
+        return 1
+    bad = out.shape != vec.shape
+    bad = bad or not all(np.array_equal(np.asarray(x), b) for x, b in zip((vec, axis, angle), before))
+    bad = bad or again.shape != out.shape or not np.array_equal(again, out)
+    if not bad:
+        v2 = before[0].reshape(3, -1)
+        n = v2.shape[1]
+        ax2 = before[1].reshape(3, -1)
+        an = np.broadcast_to(np.asarray(before[2], dtype=float).ravel(), (n,)) if np.asarray(before[2]).size in (1, n) else None
+        o2 = out.reshape(3, -1)
+        for j in range(n):
+            k = ax2[:, j] if ax2.shape[1] == n else ax2[:, 0]
+            a_ = float(an[j]) if an is not None else float(np.asarray(before[2]).ravel()[0])
+            ref = rodrigues(v2[:, j], k, a_)
+            if not np.all(np.abs(o2[:, j] - ref) <= 1e-11 * np.linalg.norm(v2[:, j])):
+                bad = True
+    print("qrotate case:", "violated" if bad else "holds")
+    return 1 if bad else 0
